@@ -257,7 +257,7 @@ def rhs2d(ctx, rng, idx):
 
 @group(quick=100, thorough=3000)
 def solve2d(ctx, rng, idx):
-    iname = gen.EXPLICIT[idx % len(gen.EXPLICIT)]
+    iname = (gen.EXPLICIT + ["implicit", "cranknicolson", "gear"])[idx % (len(gen.EXPLICIT) + 3)]
     m, model, disc, f, desc, fs, qs, cond = _scn2d(rng)
     dtlocal = bool(rng.random() < 0.3)
     nstep = int(rng.integers(1, 5))
@@ -265,7 +265,14 @@ def solve2d(ctx, rng, idx):
         nstep = min(nstep, max(1, int(np.log(1e5) / np.log(cond))))
     cfl = float(rng.uniform(0.05, 0.5))
     ctx.describe(integrator=iname, cfl=cfl, nstep=nstep, dtlocal=dtlocal, **desc)
-    res = gen.integ(iname)(m, disc).solve(f, cfl, stop={"maxit": nstep}, directives={"dtlocal": True} if dtlocal else {})
+    try:
+        res = gen.integ(iname)(m, disc).solve(f, cfl, stop={"maxit": nstep}, directives={"dtlocal": True} if dtlocal else {})
+    except (ValueError, IndexError) as e:
+        if iname in gen.IMPLICIT:
+            ctx.ev("solve2d")
+            ctx.fail("solve2d/implicit-integrators-reject-vector-valued-fields", "%s: %s" % (type(e).__name__, e))
+            return
+        raise
     for i in range(3):
         ctx.close("solve2d:drift", np.max(np.abs(res[-1].data[i] - f.data[i])) / qs[i] / cond ** nstep / nstep, TOL, "solve2d/uniform-drifts/" + desc["kind"],
                   {"eq": i, "integrator": iname}, cls="solve2d")
